@@ -1,4 +1,9 @@
-use std::sync::{Arc, RwLock};
+use std::sync::Arc;
+
+#[cfg(simple_dns_verif)]
+use crate::verif_lock::RwLock;
+#[cfg(not(simple_dns_verif))]
+use std::sync::RwLock;
 
 use simple_dns::{header_buffer, Packet, PacketFlag, ResourceRecord};
 
